@@ -216,6 +216,9 @@ def binop(op, a, b, spec=False):
         return map_choice(a, lambda x: binop(op, x, b, spec))
     if isinstance(b, Choice):
         return map_choice(b, lambda x: binop(op, a, x, spec))
+    if op in ('-', '/', '//', '**') and (isinstance(a, (str, SChar)) or (isinstance(a, SSeq) and a.kind == 'str') or
+                                        isinstance(b, (str, SChar)) or (isinstance(b, SSeq) and b.kind == 'str')):
+        _raise_if(True, 'TypeError')        # str - x, x / str ...
     if op == '+' and (isinstance(a, Opaque) or isinstance(b, Opaque)) and \
             all(isinstance(x, (Opaque, str, SChar, SSeq)) for x in (a, b)):
         return Opaque('text')          # concatenation with an unmodelled text (number formatting): some text
